@@ -14,7 +14,6 @@
 (***************************************************************************)
 EXTENDS TraceBase, Vector
 
-VARIABLE l
 
 LowerLevels(L) == CASE L = "B" -> {} [] L = "T" -> {"B"} [] L = "E" -> {"B", "T"}
 
@@ -102,9 +101,7 @@ Verdict(ev) ==
     [] ev.k = "pair" -> PairVerdict(ev)
     [] OTHER -> "harness:unknown event"
 
-Init == LoadTrace /\ l = 1
-Next == /\ l <= Len(Trace)
-        /\ LET v == Verdict(Trace[l]) IN IF v = "ok" THEN TRUE ELSE Report(l, v, "")
-        /\ l' = l + 1
-Spec == Init /\ [][Next]_l
+Init == LoadTrace /\ TraceInit
+Next == (l <= Len(Trace) /\ Step(Verdict(Trace[l]))) \/ Finish
+Spec == Init /\ [][Next]_<<l, nbad>>
 =============================================================================
